@@ -23,8 +23,8 @@ def unhexNibble (c : UInt8) : Option UInt8 :=
   else if 65 ≤ c ∧ c ≤ 70 then some (c - 55)
   else none
 
-/-- parse `-` / hex / `*<n>:<byte hex>` (n repetitions of one byte, for large payloads) -/
-def unhex (s : String) : Option Bytes :=
+/-- parse one part: `-` / hex / `*<n>:<byte hex>` (n repetitions of one byte, for large payloads) -/
+def unhexPart (s : String) : Option Bytes :=
   if s == "-" then some []
   else if s.startsWith "*" then
     match (s.drop 1).toString.splitOn ":" with
@@ -46,6 +46,13 @@ def unhex (s : String) : Option Bytes :=
         | some h, some l => out := out.push (h * 16 + l)
         | _, _ => ok := false
       return if ok then some out.toList else none
+
+/-- parse a byte field: parts joined by `+` -/
+def unhex (s : String) : Option Bytes :=
+  if s.contains '+' then do
+    let parts ← (s.splitOn "+").mapM unhexPart
+    some parts.flatten
+  else unhexPart s
 
 def unhexList (s : String) : Option (List Bytes) :=
   if s == "." then some [] else (s.splitOn ",").mapM unhex
